@@ -224,3 +224,161 @@ def loop_ancestors(prog: Program, fi: FuncInfo, node: ast.AST) -> List[ast.AST]:
         if isinstance(a, (ast.For, ast.While, ast.AsyncFor)):
             out.append(a)
     return out
+
+
+# ---- facts: conjunctive atoms known to hold where a node executes ---------------
+
+_NEG = {"eq": "ne", "ne": "eq", "in": "notin", "notin": "in", "is": "isnot", "isnot": "is",
+        "lt": "ge", "ge": "lt", "gt": "le", "le": "gt", "truthy": "falsy", "falsy": "truthy"}
+_OPS = {ast.Eq: "eq", ast.NotEq: "ne", ast.In: "in", ast.NotIn: "notin", ast.Is: "is", ast.IsNot: "isnot",
+        ast.Lt: "lt", ast.GtE: "ge", ast.Gt: "gt", ast.LtE: "le"}
+
+
+def atoms_of(test: ast.AST, truth: bool) -> List[Tuple[str, str, str]]:
+    """Decompose `test == truth` into a conjunction of atoms (op, left, right).
+    Disjunctions that cannot be decomposed are returned as one opaque atom
+    ('truthy'/'falsy', text, '')."""
+    t = test
+    if isinstance(t, ast.UnaryOp) and isinstance(t.op, ast.Not):
+        return atoms_of(t.operand, not truth)
+    if isinstance(t, ast.BoolOp):
+        conj = isinstance(t.op, ast.And)
+        if conj == truth:
+            # (a and b) is True  /  (a or b) is False  -> every operand decided
+            out = []
+            for v in t.values:
+                out += atoms_of(v, truth)
+            return out
+        return [("truthy" if truth else "falsy", T(t), "")]
+    if isinstance(t, ast.Compare) and len(t.ops) == 1:
+        op = _OPS.get(type(t.ops[0]))
+        if op:
+            if not truth:
+                op = _NEG[op]
+            return [(op, T(t.left), T(t.comparators[0]))]
+    if isinstance(t, ast.NamedExpr):
+        return atoms_of(t.value, truth) + [("truthy" if truth else "falsy", T(t.target), "")]
+    return [("truthy" if truth else "falsy", T(t), "")]
+
+
+def facts(prog: Program, fi: FuncInfo, node: ast.AST) -> Set[Tuple[str, str, str]]:
+    out = set()
+    for c in conds(prog, fi, node):
+        if c.polarity in (True, False):
+            out.update(atoms_of(c.test, c.polarity))
+    return out
+
+
+def has_fact(fs, op: str, left_contains: str = "", right_contains: str = "") -> bool:
+    """Symmetric for eq/ne."""
+    for o, l, r in fs:
+        if o != op:
+            continue
+        if left_contains in l and right_contains in r:
+            return True
+        if op in ("eq", "ne") and left_contains in r and right_contains in l:
+            return True
+    return False
+
+
+# ---- option plumbing (E6) --------------------------------------------------------
+
+def compiler_field_classes(prog: Program, compiler_q: str, fld: str) -> List[ClassInfo]:
+    """Package classes a dataclass field defaults to, for the compiler class (MRO)."""
+    ci = prog.ix.get_class(compiler_q)
+    ca = prog.ix.class_attr(ci, fld)
+    if ca is None:
+        raise AnalysisError(f"{compiler_q} has no field {fld}")
+    owner, expr = ca
+    d = prog.ix.resolve_expr(owner.module, expr, owner)
+    obj = prog.ix.lookup(d) if d else None
+    if not isinstance(obj, ClassInfo):
+        raise AnalysisError(f"{compiler_q}.{fld} does not default to a package class ({T(expr)})")
+    return [obj]
+
+
+def has_field(prog: Program, compiler_q: str, fld: str) -> bool:
+    ci = prog.ix.get_class(compiler_q)
+    return any(fld in c.annotations for c in prog.ix.mro(ci))
+
+
+def consumer_params(prog: Program, compiler_q: str, stage: str) -> Set[str]:
+    ix = prog.ix
+    if stage == "pre":
+        out = set()
+        for pc in compiler_field_classes(prog, compiler_q, "preProcessorClass"):
+            for name in ("__init__", "initDefaultFilters"):
+                m = ix.find_method(pc, name)
+                if m is not None:
+                    out.update(p for p in m.params() if not p.startswith("*"))
+        return out
+    if stage == "outline":
+        out = set()
+        for oc in compiler_field_classes(prog, compiler_q, "outlineCompilerClass"):
+            m = ix.find_method(oc, "__init__")
+            out.update(p for p in m.params() if not p.startswith("*"))
+        return out
+    if stage == "post":
+        out = set()
+        for pc in compiler_field_classes(prog, compiler_q, "postProcessorClass"):
+            m = ix.find_method(pc, "process")
+            out.update(p for p in m.params() if not p.startswith("*"))
+        return out
+    if stage == "feature":
+        m = ix.get_method("ufo2ft.featureCompiler.FeatureCompiler", "__init__")
+        return {p for p in m.params() if not p.startswith("*")}
+    raise AnalysisError(f"unknown stage {stage}")
+
+
+RENAMES = {("pre", "cubicConversionError"): "conversionError"}
+
+
+def check_plumbing(prog: Program, chk, rule: str, table: Sequence[Tuple[str, str, str]]) -> None:
+    """table rows: (compiler class qname, option, stage)."""
+    ix = prog.ix
+    for compiler_q, option, stage in table:
+        short = compiler_q.rsplit(".", 1)[1]
+        inst = f"{short}.{option}->{stage}"
+        if not has_field(prog, compiler_q, option):
+            chk.ob(rule, inst, False, "", message=f"{short} has no dataclass field '{option}': the public option is not accepted any more")
+            continue
+        want = RENAMES.get((stage, option), option)
+        params = consumer_params(prog, compiler_q, stage)
+        ok = want in params
+        if ok and (stage, option) in RENAMES:
+            # the documented rename must still be performed in BaseCompiler.preprocess
+            pre = ix.get_method(BASE_COMPILER, "preprocess", own=True)
+            ok = any(isinstance(t, ast.Subscript) and A.is_const(t.slice, want) and isinstance(v, ast.Attribute) and v.attr == option
+                     for _st, t, v in subscript_stores(pre))
+        chk.ob(rule, inst, ok, ix.get_class(compiler_q).module.relpath,
+               detail=f"consumer of stage '{stage}' accepts parameter '{want}'",
+               message=f"option '{option}' of {short} is silently dropped: no parameter '{want}' in the {stage}-stage consumer "
+                       f"(options are forwarded by name through prune_unknown_kwargs)")
+
+
+def check_forwarding(prog: Program, chk, rule: str) -> None:
+    """The by-name forwarding mechanism itself: each stage builds its kwargs with
+    prune_unknown_kwargs(self.__dict__, <consumer>) and passes them with **."""
+    ix = prog.ix
+    sites = [
+        (BASE_COMPILER, "preprocess", "preProcessorClass"),
+        (BASE_COMPILER, "compileOutlines", "outlineCompilerClass"),
+        (BASE_COMPILER, "compileFeatures", "featureCompilerClass"),
+        (BASE_COMPILER, "postprocess", "process"),
+        ("ufo2ft._compilers.ttfCompiler.TTFCompiler", "compileOutlines", "outlineCompilerClass"),
+        ("ufo2ft._compilers.interpolatableTTFCompiler.InterpolatableTTFCompiler", "compileOutlines", "outlineCompilerClass"),
+        ("ufo2ft._compilers.interpolatableOTFCompiler.InterpolatableOTFCompiler", "compileOutlines", "outlineCompilerClass"),
+    ]
+    for cq, mname, consumer in sites:
+        m = ix.get_method(cq, mname, own=True)
+        calls = [c for c in A.body_nodes(m.node) if isinstance(c, ast.Call) and isinstance(c.func, ast.Attribute) and c.func.attr == consumer]
+        ok = False
+        for c in calls:
+            for k in c.keywords:
+                if k.arg is None:
+                    good, _bad = every_origin(prog, m, k.value, lambda e, f: isinstance(e, ast.Call) and A.callee_name(e) == "prune_unknown_kwargs"
+                                              and e.args and T(e.args[0]) == "self.__dict__", allow_const=False)
+                    ok = ok or good
+        chk.ob(rule, f"{m.short}|forwards self.__dict__ through prune_unknown_kwargs", ok, where(m),
+               detail=f"{consumer}(..., **prune_unknown_kwargs(self.__dict__, ...))",
+               message=f"{m.short} no longer forwards the compiler's options to {consumer} by name")
